@@ -341,7 +341,14 @@ func (h *Hub) prepareConnectionInitation(ski string, counter int, entry *api.Mdn
 
 	// check if the current counter is still the same, otherwise this counter is irrelevant
 	currentCounter, exists := h.getCurrentConnectionAttemptCounter(ski)
-	if !exists || currentCounter != counter {
+	if !exists {
+		// the counter was reset while this attempt was waiting (a completed connection got closed,
+		// the pairing changed): mDNS reports which arrived meanwhile did not start an attempt
+		// because this one was pending, so have a fresh look at the known services
+		h.checkAutoReannounce()
+		return
+	}
+	if currentCounter != counter {
 		return
 	}
 
